@@ -1,8 +1,6 @@
 // C20: interpretation iterators as odometers.  Pure specs + lemmas; no repo code.
 use vstd::arithmetic::power2::*;
 
-#[verifier::external_body]
-fn __o_slice_to_vec(s: &[Term]) -> (r: Vec<Term>) ensures r@ == s@ { s.into() }
 
 pub open spec fn und(t: Term) -> bool { t.0 > 1 }
 // undecided positions in [lo, hi), in descending order
